@@ -36,9 +36,29 @@ TDecOK(ev) ==
                   /\ ev.isth /\ (ev.isstreaming = ((r.param.flags \div 2) % 2 = 1))
        /\ ~r.ok => ~ev.ok
 
-EvOK(ev) == CASE ev.k = "tth_enc" -> TEncOK(ev) [] ev.k = "tth_dec" -> TDecOK(ev) [] OTHER -> TRUE
+\* ---- a stream of framed messages: header + payload (message envelope + struct), back to back --------------
+\* "the decoded payload length equals total + 4 - header length, so any payload is delimited exactly"
+TotalOf(lanes) == lanes[1] * 16777216 + lanes[2] * 65536 + lanes[3] * 256 + lanes[4]    \* (< 2^31 in these traces)
+RECURSIVE FramesOK(_, _, _)
+FramesOK(segs, frames, k) ==
+  IF k > Len(frames) THEN SegsLen(segs) = 0                              \* the stream is consumed exactly
+  ELSE LET in == MkIn(segs)  r == Parse(in)  f == frames[k] IN
+       /\ r.ok /\ f.ok /\ f.hlen = r.hlen
+       /\ LET plen == TotalOf(r.total) + 4 - r.hlen IN
+          /\ f.plen = plen /\ plen >= 0 /\ r.hlen + plen <= in.len
+          /\ LET pay == MkIn(Take(Drop(segs, r.hlen), plen))
+                 h   == Dec("msgbegin", pay) IN
+             /\ h.ok /\ f.seq = h.val.seq
+             /\ Norm(f.method) = Norm(Slice(pay, h.val.name.at, h.val.name.len))
+             /\ LET body == MkIn(Drop(pay.segs, h.n))
+                    st   == ReadStruct(f.schema, body) IN
+                st.ok /\ st.n = body.len /\ SameVal(f.schema, NormVal(f.schema, f.val), st.val)
+          /\ FramesOK(Drop(segs, r.hlen + plen), frames, k + 1)
+
+EvOK(ev) == CASE ev.k = "tth_stream" -> FramesOK(ev.in, ev.frames, 1)
+              [] ev.k = "tth_enc" -> TEncOK(ev) [] ev.k = "tth_dec" -> TDecOK(ev) [] OTHER -> TRUE
 TraceInit == l = 1
 TraceNext == /\ l <= Len(Trace) /\ l' = l + 1
-             /\ LET ev == Trace[l] IN ~EvOK(ev) => ReportWhy("MISMATCH", l, ev.k \o "/" \o ev.api)
+             /\ LET ev == Trace[l] IN ~EvOK(ev) => ReportWhy("MISMATCH", l, ev.k \o "/" \o (IF "api" \in DOMAIN ev THEN ev.api ELSE "stream"))
 TraceSpec == TraceInit /\ [][TraceNext]_l
 =============================================================================
